@@ -538,3 +538,98 @@ _run_c12b = run
 def run(ctx):  # noqa: F811
     _run_c12b(ctx)
     r12_5(ctx, ctx.model)
+
+
+def r12_6(ctx, m):
+    """NDVariableCovarianceGaussian: the parametrisation switch selects the same kind of operation in every method"""
+    from ..util import cfg_of, known_atoms, strip_not
+    ctx.rule("R12.6", "NDVariableCovarianceGaussian: in energy, metric, left_sqrt_metric, transformation and normalized_residual the "
+                      "mean/residual block is treated with solve(...) under `self.covariance` and with a matrix product otherwise - "
+                      "the same selection in every method (sibling agreement), so metric, square roots and energy describe the same "
+                      "distribution in both parametrisations", floor=5)
+    C = m.cls(IMPL, "NDVariableCovarianceGaussian", required=False)
+    if C is None:
+        ctx.error("R12.6: NDVariableCovarianceGaussian missing")
+        return
+    ctx.saw_class(C)
+    table = {}
+    for name in ("energy", "metric", "left_sqrt_metric", "transformation", "normalized_residual"):
+        fi = C.methods.get(name)
+        if fi is None:
+            ctx.und("R12.6", f"{C.key}::{name}", "method missing", C)
+            continue
+        ctx.saw_func(fi)
+        cfg = cfg_of(fi)
+        sel = {}
+        for n in cfg.nodes:
+            if n.kind != "stmt" or n.ast is None:
+                continue
+            calls = [c for c in ast.walk(n.ast) if isinstance(c, ast.Call) and call_name(c) in ("solve", "_matmul", "matmul")
+                     and not any(k.arg == "matrix_eqn" for k in c.keywords)]
+            if not calls:
+                continue
+            pol = [p for t, p in known_atoms(cfg, n.id) if src(t) == "self.covariance"]
+            kind = {("solve" if call_name(c) == "solve" else "matmul") for c in calls}
+            for k in kind:
+                for p in (pol or [True, False]):
+                    sel.setdefault(p, set()).add(k)
+        table[name] = sel
+        key = f"{fi.key}::covariance -> solve, precision -> matrix product (vector block)"
+        if not sel:
+            ctx.und("R12.6", key, "no vector-block operation found", fi)
+            continue
+        ok = sel.get(True) == {"solve"} and sel.get(False) == {"matmul"}
+        ctx.check("R12.6", key, ok, f"selection {dict((('covariance' if k else 'precision'), sorted(v)) for k, v in sel.items())}", fi)
+
+
+def r12_7(ctx, m):
+    """solve(..., transposed=True) returns X with X A = B, not its transpose"""
+    from ..util import cfg_of, known_atoms
+    ctx.rule("R12.7", "tree_math.util.solve: under `transposed` both operands are transposed before the solve AND the result is "
+                      "transposed back before it is returned (X A = B  <=>  A^T X^T = B^T); the matrix block of the variable-covariance "
+                      "metric C^-1 T C^-1 relies on it for non-symmetric tangents", floor=2)
+    fi = m.func("nifty.re.tree_math.util", "solve", required=False)
+    if fi is None:
+        ctx.error("R12.7: tree_math.util.solve missing")
+        return
+    ctx.saw_func(fi)
+    cfg = cfg_of(fi)
+    rd = cfg.reaching_defs(fi.params())
+    A, B = fi.params()[:2]
+    tr = {}
+    for n in cfg.nodes:
+        if n.kind == "stmt" and isinstance(n.ast, ast.Assign) and isinstance(n.ast.targets[0], ast.Name) and isinstance(n.ast.value, ast.Call):
+            v = n.ast.value
+            is_t = (call_name(v) == "tree_map" and len(v.args) == 2 and "transpose" in src(v.args[0]) and src(v.args[1]) == n.ast.targets[0].id) or \
+                   (call_name(v) in ("matrix_transpose", "transpose", "swapaxes") and v.args and src(v.args[0]) == n.ast.targets[0].id)
+            if is_t and any(src(t) == "transposed" and p for t, p in known_atoms(cfg, n.id)):
+                tr.setdefault(n.ast.targets[0].id, []).append(n)
+    pre = sorted(k for k in tr if k in (A, B))
+    ctx.check("R12.7", f"{fi.key}::operands are transposed under the flag", pre == sorted([A, B]) if pre else None, f"transposed before the solve: {pre}", fi)
+    rets = [n for n in cfg.nodes if n.kind == "stmt" and isinstance(n.ast, ast.Return) and n.ast.value is not None]
+    key = f"{fi.key}::the result is transposed back under the flag"
+    if len(rets) != 1:
+        ctx.und("R12.7", key, f"{len(rets)} returns", fi)
+        return
+    rv = rets[0].ast.value
+    if isinstance(rv, ast.Name):
+        back = rv.id in tr and any(d in {n.id for n in tr[rv.id]} for d in (rd.get(rets[0].id) or {}).get(rv.id, ()))
+        if pre and not back:
+            ctx.bad("R12.7", key, f"`{rv.id}` is returned as solved for the transposed system: the caller gets X^T", fi, rets[0].ast)
+        else:
+            ctx.check("R12.7", key, True if back else None, f"`{rv.id}` transposed at lines {[n.ast.lineno for n in tr.get(rv.id, [])]}", fi, rets[0].ast)
+    else:
+        t = src(rv)
+        if pre and "transpose" not in t and "transposed" not in t:
+            ctx.bad("R12.7", key, f"`{t}` is returned as solved for the transposed system: the caller gets X^T", fi, rets[0].ast)
+        else:
+            ctx.und("R12.7", key, f"return `{t}` not recognised", fi, rets[0].ast)
+
+
+_run_c12c = run
+
+
+def run(ctx):  # noqa: F811
+    _run_c12c(ctx)
+    r12_6(ctx, ctx.model)
+    r12_7(ctx, ctx.model)
